@@ -443,14 +443,14 @@ mutual
       simp [printElem] at hf
       obtain ⟨g, rfl⟩ : ∃ g, f = g + 1 := ⟨f - 1, by omega⟩
       simp [printElem, parseElem, boolOfWord_blsWord, parseBigNumber_blsWord, dataKindOfWord_blsWord,
-        parseBlsWord_blsWord]
+        parseBlsWord_blsWord, hok]
     | .g2 b => by
       intro t f rest hok hf
       cases t <;> simp [constOk] at hok
       simp [printElem] at hf
       obtain ⟨g, rfl⟩ : ∃ g, f = g + 1 := ⟨f - 1, by omega⟩
       simp [printElem, parseElem, boolOfWord_blsWord, parseBigNumber_blsWord, dataKindOfWord_blsWord,
-        parseBlsWord_blsWord]
+        parseBlsWord_blsWord, hok]
     | .ml b => by
       intro t f rest hok
       cases t <;> simp [constOk] at hok
@@ -531,8 +531,12 @@ theorem parseConst_print (c : Const) (f : Nat) (rest : List Token) (hok : constO
     have h1 := skipWs_of_noLeadWs (printData_noLeadWs d) (.rpar :: rest)
     have h2 := parseData_print d f (.rpar :: rest) hok (by omega)
     simp [printConst, parseConst, conKindOfWord_kw, h1, h2]
-  | g1 b => simp [printConst, parseConst, conKindOfWord_kw, parseBlsWord_blsWord]
-  | g2 b => simp [printConst, parseConst, conKindOfWord_kw, parseBlsWord_blsWord]
+  | g1 b =>
+    simp [Const.ty, constOk] at hok
+    simp [printConst, parseConst, conKindOfWord_kw, parseBlsWord_blsWord, hok]
+  | g2 b =>
+    simp [Const.ty, constOk] at hok
+    simp [printConst, parseConst, conKindOfWord_kw, parseBlsWord_blsWord, hok]
   | ml b => simp [Const.ty, constOk] at hok
   | list t xs =>
     simp [Const.ty, constOk] at hok
